@@ -1,5 +1,6 @@
 """One simulated run: seed -> parameters -> steps, executed against real code, checked by oracles."""
 import hashlib
+import os
 import json
 from collections import Counter
 
@@ -11,6 +12,9 @@ from . import x as X
 
 class Violation(Exception):
     pass
+
+
+_EVLOG = os.environ.get("DSIM_EVLOG")
 
 
 class Run:
@@ -26,6 +30,7 @@ class Run:
         self.params = None
         self.steps = []
         self.violations = []
+        self.step_excs = []
         self.stats = Counter()
         self.fired = Counter()
         self.probes = Counter()
@@ -77,6 +82,9 @@ class Run:
     def logev(self, *parts):
         self.nev += 1
         self._h.update(json.dumps(parts, sort_keys=True, default=str).encode())
+        if _EVLOG:     # debugging aid only (never read back): the event log in clear, one file per run
+            with open("%s.%s.%d.%d" % (_EVLOG, self.seed, os.getpid(), id(self)), "a") as f:
+                f.write(json.dumps(parts, sort_keys=True, default=str)[:4000] + "\n")
 
     def do(self, e, store=None, ex=None):
         ex = ex or self.E
@@ -85,6 +93,9 @@ class Run:
         self.logev("call", e, r["obs"], r.get("fx"))
         for k, v in (r.get("fired") or {}).items():
             self.fired[k] += v
+        for x in r.get("excs") or []:
+            if x not in self.step_excs and len(self.step_excs) < 8:
+                self.step_excs.append(x)
         return r["obs"]
 
     def do_fx(self, e, ex=None):
@@ -99,6 +110,8 @@ class Run:
 
     def violation(self, oracle, detail, **extra):
         v = {"oracle": oracle, "detail": detail, "step": len(self.steps) - 1}
+        if self.step_excs:
+            v["exceptions_in_step"] = list(self.step_excs)    # [name, message, innermost spil frame]
         v.update(extra)
         self.violations.append(v)
         self.logev("violation", v)
@@ -144,11 +157,15 @@ def execute(env, profile, seed, tier, replay=None):
                 if step is None:
                     break
             run.steps.append(step)
-            run.logev("step", step)
+            run.step_excs = []
             try:
                 profile.apply(run, step)
             except Violation:
                 break
+            finally:
+                # logged AFTER the step ran: apply() may make a generated step concrete (a picked crash point), and the
+                # digest of a generated run must equal the digest of the replay of its recorded steps
+                run.logev("step", step)
             i += 1
         if not run.violations:
             try:
